@@ -21,7 +21,8 @@ from vlib.front import unparse, dotted, const_value, AnchorMissing
 from vlib.shape import Shape, Space, Ix, Q, D, BoolT, StrT, NoneT, SizeOf, UNK, is_unk, Arr, Rec, Tup, ListT, DictT, B
 from obligations.shape_tables import (model_attrs, COMMON_SIGS, M, AR, Tmpl, Clu, Chan, Samp, Spike, Loc, LocT, PC, FeatRow, FEAT, RAW)
 
-FLOOR = 16
+FLOOR = 10          # decided obligations below this = the analysis lost its footing (exit 2); clean tree: 28
+RULES = ('C06.A0', 'C06.A1', 'C06.A2', 'C06.A3', 'C06.A4')          # every obligation group must report (holds / violated / undecided): a group that vanishes silently is an analysis error
 EXPLANATION = ('shape engine over get_features / get_template_features / compute_features with from_sparse and _index_of replaced by their '
                'signatures (checked against their bodies by structural rules): which table an index vector points into, which axis it is '
                'applied to, and the axes of the results')
@@ -129,6 +130,15 @@ def run(ctx):
     dp, cp, chp = fs.params[:3]
     src = ast.unparse(fs.node)
     PF = Pat(fs)
+    # the body of from_sparse under its own typing: only the construct-level reports (promises about uniqueness, casts of ids) are taken from this run - the
+    # list-valued output shape is outside the engine's rank tracking
+    Sb = Shape(repo, inline_depth=2)
+    Sb.result(fs, {dp: Arr((B('Row'), Loc, B('PCx')), FEAT), cp: Arr((B('Row'), Loc), Ix(Chan)), chp: Arr((B('ReqC'),), Ix(Chan))})
+    body_reports = [r_ for r_ in Sb.reports if r_.kind in ('unique', 'dtype')]
+    for r_ in body_reports:
+        ctx.violated('C06.A3', r_.fi, r_.node, '[from_sparse] %s' % r_.msg)
+    if not body_reports:
+        ctx.holds('C06.A3', fs, 'no uniqueness promise on a flattened table and no narrowing cast of ids in from_sparse', 'from_sparse body')
     # the value that replaces a column which was not requested (the sentinel) and the last entry of the lookup table
     PR = Pat(fs)
     red = PR.stmt('V_c[~np.isin(V_c, %s)] = E_sent' % chp) or PR.stmt('V_c[np.isin(V_c, %s, invert=True)] = E_sent' % chp) or PR.stmt('V_c[np.logical_not(np.isin(V_c, %s))] = E_sent' % chp) or \
